@@ -17,13 +17,15 @@ Monitors (all judged on what the real objects returned / what the wrapped callab
   errbound     |cache - f| <= sum_d H_d^2 max|d2f/dx_d2| + allowance, H_d = largest gap among the four recorded node
                coordinates around the point in dimension d (K = 1 per dimension, derivation below);
   bounds       a cache with function_boundaries and one without agree up to the rounding allowance;
+  special      (counter) bit comparisons between histories at the special exact points (origin, signed zeros, corners,
+               edges, exact nodes), which one order evaluates first on a fresh cache and the others later;
   scale_exact / scale   cache(2^k f) == 2^k cache(f) bit for bit / cache(shift + c f) == shift + c cache(f) to rounding.
 
 Rounding allowance (stated once, used by node / multilinear / errbound / bounds / scale); everything in it is relative
 to the function's own scales, nothing is absolute:
     the wrapped function is shift + scale * F; its magnitude is split into a constant part S_off (|shift| + constant term
     of F, max with |bound_min|, |bound_max| when value bounds are supplied) and a varying part S_v
-    tol = 1e-9 S_v + 64 eps (4 S_off + S_v prod_d [1 + 2 rho_d th1_d + 8 rho_d^2 (1 + rho_d) th2_d])
+    tol = 1e-9 S_v + 64 eps (16 S_off + S_v prod_d [1 + 2 rho_d th1_d + 8 rho_d^2 (1 + rho_d) th2_d])
     rho_d = (extent_d + 2 resolution_d) / h_d,min   (position of a cell in units of the cell width in the coordinates the
             class normalises to [0, 1] over the area; h_d,min = smallest gap between RECORDED node coordinates)
     th1_d = min(1, H_d max|df/dx_d| / S_v), th2_d = min(4, 6 H_d^2 max|d2f/dx_d2| / S_v)
@@ -76,11 +78,14 @@ RULE = ("random 1-/2-/3-D caching problems: area extent 1e-3..1e2 per axis at of
         "extent 0.1..100, node spacing 1e-2..1e-4 of the extent along one axis, |x|/spacing up to 1e9, curved functions), "
         "function magnitude classes for all dimensions alike: unit (amplitude 1e-2..1e2), pow2 / anyscale (the same kinds "
         "times 2^k or an arbitrary factor, amplitudes 1e-298..1e296, half of them 1e-16..1e-5), offset (offset 1e1..1e10 times "
-        "the variation), "
+        "the variation), exact special in-area points in every case (the origin and signed zeros in some coordinates when "
+        "the area contains them, area corners / edges / faces, exact nodes) evaluated FIRST on a fresh cache (one of them "
+        "twice in a row, optionally preceded by the origin as an out-of-area point) and later in the other orders; "
+        "origin-class areas place 0 inside a cell, on a node (exactly), or on a face; "
         "wrapped function from {constant, multilinear, quadratic, product of sines, sine of a sum, exponential, steep "
         "Gaussian}, value bounds absent/tight/loose/degenerate/narrow; 14..44 in-area points (uniform, on/near nominal "
-        "nodes, 4e-7 inside the boundary, duplicates) and 6..10 out-of-area points driven through 4..5 fresh caches in "
-        "sorted, reversed, random-interleaved and clustered-then-scattered order; a case is non-trivial when at least "
+        "nodes, 4e-7 inside the boundary, duplicates) and 6..10 out-of-area points driven through 5..7 fresh caches in "
+        "sorted, reversed, special-first, random-interleaved and clustered-then-scattered order; a case is non-trivial when at least "
         "two histories were compared bit-for-bit on >= 5 in-area points and one numerical clause was decided "
         "(distinct = distinct expanded case descriptors)")
 LEVEL_TEXT = ("Exploration by runtime monitoring: each generated problem is executed on the real Caching1D/2D/3D "
@@ -95,8 +100,9 @@ TECHNIQUE = ("runtime monitoring: history independence (fresh caches driven with
              "out-of-area points, bit-identical results) + argument recorder (nodes = arguments received) + "
              "reference-model oracle (multilinear exactness with computed cancellation allowance, h^2 max|f''| bound)")
 ASSUMPTIONS = ["wrapped functions are deterministic, finite and pure (the recording wrapper only appends to a list)",
-               "in-area = at least 3e-7 inside every face of the area, out-of-area = at least 3e-7 outside one face",
-               "rounding allowance 1e-9 S_v + 64 eps (4 S_off + magnitude of the monomials of the cell cubic in the area-"
+               "in-area = inside the closed area (faces, edges, corners included), out-of-area = at least 3e-7 outside one "
+               "face (the documented 1e-7 skin lies outside the area and is not judged)",
+               "rounding allowance 1e-9 S_v + 64 eps (16 S_off + magnitude of the monomials of the cell cubic in the area-"
                "normalised coordinates), S_v / S_off = varying / constant part of the function's magnitude (translation "
                "invariant, homogeneous in the function); clauses whose allowance exceeds 1e-3 S_v count as *_weak only",
                "magnitudes whose cell-cubic monomials reach 1e300 or that lie below 1e-290 are outside double precision "
@@ -109,7 +115,7 @@ QUICK = dict(cases=600, workers=2, timecap=30)
 THOROUGH = dict(cases=40000, workers=16, timecap=600)
 REQUIRED = {"history": 15000, "repeat": 1000, "outside_raise": 2000, "outside_passthrough": 4000, "inside": 25000,
             "node": 4000, "multilinear": 1500, "errbound": 3000, "bounds": 3000, "far1d": 500, "far2d": 500, "far3d": 250,
-            "scale_exact": 1200, "scale": 500}
+            "scale_exact": 1200, "scale": 500, "special": 5000}
 
 EPS = 2.220446049250313e-16
 SKIN = 3e-7
@@ -344,6 +350,30 @@ FKINDS = ["const", "multilinear", "multilinear", "multilinear", "quadratic", "qu
           "exp", "gauss", "gauss"]
 
 
+def _zero_node_axis(rng, e, n):
+    """(lo, hi, resolution) of an axis whose sampling grid linspace(lo - 1e-7, hi + 1e-7, n) has a node at exactly 0.0."""
+    s0 = e / (n - 1)
+    m = 20 - int(math.floor(math.log2(s0)))
+    st = round(s0 * 2.0 ** m) / 2.0 ** m               # dyadic step with <= 21 significant bits: k * st is exact
+    k = int(rng.integers(1, n - 1))
+    start, stop = -k * st, (n - 1 - k) * st
+    a = b = None
+    x = start + 1e-7
+    for cand in [x] + [float(np.nextafter(x, s * np.inf)) for s in (1, -1)]:
+        if cand - 1e-7 == start:
+            a = cand
+    x = stop - 1e-7
+    for cand in [x] + [float(np.nextafter(x, s * np.inf)) for s in (1, -1)]:
+        if cand + 1e-7 == stop:
+            b = cand
+    if a is None or b is None or not a < 0.0 < b:
+        return None
+    h = (b - a) / (n - 1 + 0.5)
+    if max(int((b - a) / h) + 1, 2) != n or np.linspace(a - 1e-7, b + 1e-7, n)[k] != 0.0:
+        return None
+    return float(a), float(b), float(h)
+
+
 FARKINDS = ["multilinear", "quadratic", "quadratic", "sinprod", "sinprod", "sinsum", "exp", "gauss"]
 
 
@@ -388,8 +418,16 @@ def gen_case(rng, tier):
                 res[fine] = float((hi[fine] - lo[fine]) / (nn[fine] - 1 + 0.5))
     for d in range(dim if offclass != "farfine" else 0):
         e = float(10 ** rng.uniform(-3, 2))
+        zero_node = None
         if offclass == "origin":
             a = -float(rng.uniform(0, 1)) * e
+            zp = rng.random()            # where 0 lies: inside a cell (default) / on the lower face / on the upper face / on a node
+            if zp < 0.13:
+                a = 0.0
+            elif zp < 0.23:
+                a = -e
+            elif zp < 0.43:
+                zero_node = True
         else:
             rel = dict(near=rng.uniform(0, 3), mid=10 ** rng.uniform(0.5, 2), far=10 ** rng.uniform(2, 3))[offclass]
             a = float(rel) * e
@@ -412,6 +450,10 @@ def gen_case(rng, tier):
             h = (b - a) * float(rng.uniform(1.0, 5.0))              # resolution > extent
         else:
             h = (b - a) / (n - 1 + float(rng.uniform(0.05, 0.95)))     # int(extent/h)+1 == n, away from the edges
+        if zero_node and n >= 3 and h <= (b - a):
+            zn = _zero_node_axis(rng, e, n)
+            if zn is not None:
+                a, b, h = zn
         lo.append(a)
         hi.append(b)
         res.append(float(h))
@@ -454,7 +496,7 @@ def gen_case(rng, tier):
             x = lo[d] + ext[d] * [0.5, 0.25, 0.75][int(rng.integers(3))]
         return float(min(max(x, safe_lo[d]), safe_hi[d]))
 
-    m = int(rng.integers(12, 37))
+    m = int(rng.integers(10, 30))
     pts = [[coord(d) for d in range(dim)] for _ in range(m)]
     # a cluster inside one cell
     base = pts[0]
@@ -463,6 +505,43 @@ def gen_case(rng, tier):
     # duplicates
     for _ in range(int(rng.integers(2, 5))):
         pts.append(list(pts[int(rng.integers(len(pts)))]))
+
+    # ---- special exact points: origin / signed zeros, corners, edges, exact nodes --------------------------------------
+    special = []
+    zero_ok = [lo[d] <= 0.0 <= hi[d] for d in range(dim)]
+
+    def add_special(p):
+        p = [float(v) for v in p]
+        if all(lo[d] <= p[d] <= hi[d] for d in range(dim)):
+            special.append(len(pts))
+            pts.append(p)
+
+    if all(zero_ok):
+        add_special([0.0] * dim)
+        z = [0.0 if rng.random() < 0.5 else -0.0 for _ in range(dim)]
+        z[int(rng.integers(dim))] = -0.0
+        add_special(z)
+    if any(zero_ok):
+        p = [coord(d) for d in range(dim)]
+        zd = [d for d in range(dim) if zero_ok[d]]
+        for d in zd:
+            if rng.random() < 0.6:
+                p[d] = 0.0 if rng.random() < 0.7 else -0.0
+        p[zd[int(rng.integers(len(zd)))]] = 0.0
+        add_special(p)
+    add_special(list(lo))
+    add_special(list(hi))
+    add_special([lo[d] if rng.random() < 0.5 else hi[d] for d in range(dim)])
+    p = [coord(d) for d in range(dim)]
+    de = int(rng.integers(dim))
+    p[de] = lo[de] if rng.random() < 0.5 else hi[de]
+    add_special(p)
+    add_special([float(nominal[d][int(rng.integers(1, nn[d] - 1))]) if nn[d] >= 3 else coord(d) for d in range(dim)])
+    p = [coord(d) for d in range(dim)]
+    dn = int(rng.integers(dim))
+    if nn[dn] >= 3:
+        p[dn] = float(nominal[dn][int(rng.integers(1, nn[dn] - 1))])
+    add_special(p)
 
     def out_coord(d, how):
         if how == "near_lo":
@@ -487,6 +566,10 @@ def gen_case(rng, tier):
             d2 = int(rng.integers(dim))
             p[d2] = float(out_coord(d2, hows[int(rng.integers(6))]))
         outs.append(p)
+    origin_out = None
+    if any(0.0 < lo[d] - 4e-7 or 0.0 > hi[d] + 4e-7 for d in range(dim)):
+        origin_out = len(outs)
+        outs.append([0.0] * dim)                   # the origin as an out-of-area point
     # ---- value bounds ---------------------------------------------------------------------------
     F = Fn(fd, dim)
     f = phys(F, centre, ext)
@@ -517,11 +600,33 @@ def gen_case(rng, tier):
     half = nin // 2
     rest = [cidx[half:][int(j)] for j in rng.permutation(nin - half)]
     o_clu = [["i", k] for k in cidx[:half]] + [["o", int(rng.integers(nout))]] + [["i", k] for k in rest] + [["i", cidx[0]]]
+    # special points first on a fresh cache: (the origin outside the area,) one special point twice in a row, the others,
+    # then everything else
+    sp = [special[int(j)] for j in rng.permutation(len(special))]
+    if all(zero_ok) and rng.random() < 0.7:
+        sp.remove(special[0])
+        sp.insert(0, special[0])                   # the origin itself is the very first in-area call
+    head = []
+    spec_nbe = bool(rng.random() < 0.5)
+    if origin_out is not None and rng.random() < 0.6:
+        head = [["o", origin_out]]
+    restp = [int(j) for j in rng.permutation(nin) if int(j) not in set(special)]
+    o_spec = head + [["i", sp[0]], ["i", sp[0]]] + [["i", k] for k in sp[1:]] + [["i", k] for k in restp] + \
+        [["o", k] for k in range(nout)] + [["i", sp[0]]]
     orders = [dict(name="sorted", nbe=False, seq=o_sorted), dict(name="reversed", nbe=True, seq=o_rev),
+              dict(name="special-first", nbe=spec_nbe, seq=o_spec),
               dict(name="random", nbe=bool(rng.random() < 0.5), seq=o_rand),
               dict(name="clustered", nbe=bool(rng.random() < 0.5), seq=o_clu)]
-    return dict(dim=dim, lo=lo, hi=hi, res=res, nn=nn, offclass=offclass, mclass=mclass, func=fd, bounds=bounds, bclass=bclass,
-                pts=pts, outs=outs, orders=orders)
+    zclass = []
+    for d in range(dim):
+        if not zero_ok[d]:
+            zclass.append("outside")
+        elif lo[d] == 0.0 or hi[d] == 0.0:
+            zclass.append("face")
+        else:
+            zclass.append("node" if bool((nominal[d] == 0.0).any()) else "cell")
+    return dict(dim=dim, lo=lo, hi=hi, res=res, nn=nn, offclass=offclass, mclass=mclass, zclass=zclass, func=fd, bounds=bounds,
+                bclass=bclass, pts=pts, outs=outs, special=special, orders=orders)
 
 
 def _mk_fixed(dim, lo, hi, res, fd, bounds=None, npts=24, seed=1, bclass=None):
@@ -613,7 +718,8 @@ def _make_cache(dim, f, lo, hi, res, nbe, bounds):
 
 
 def _inside(p, lo, hi):
-    return all(lo[d] + SKIN <= p[d] <= hi[d] - SKIN for d in range(len(p)))
+    """In the caching area, faces, edges and corners included (the documented 1e-7 skin lies OUTSIDE the area)."""
+    return all(lo[d] <= p[d] <= hi[d] for d in range(len(p)))
 
 
 def _drive(ctx, cname, dim, f, lo, hi, res, nbe, bounds, seq, pts, outs, judge_outside=True, skey=None):
@@ -692,7 +798,7 @@ def _envelope(F, case, nodes, pts, bounds):
 
     The magnitude of the wrapped function is split into a constant part S_off (|shift| + constant term; max with the
     value bounds when supplied) and a varying part S_v.
-    tol_round = 1e-9 S_v + 64 eps (4 S_off + S_v prod_d g_d),  g_d = 1 + 2 rho_d th1_d + 8 rho_d^2 (1 + rho_d) th2_d
+    tol_round = 1e-9 S_v + 64 eps (16 S_off + S_v prod_d g_d),  g_d = 1 + 2 rho_d th1_d + 8 rho_d^2 (1 + rho_d) th2_d
     rho_d = L_d / h_d with L_d = extent_d + 2 resolution_d (the span the class documents it normalises to [0, 1]) and h_d
     the smallest gap between recorded node coordinates.  th1_d = min(1, H_d max|df/dx_d| / S_v), th2_d = min(4, 6 H_d^2
     max|d2f/dx_d2| / S_v).  S_v prod g is the summed magnitude of the monomials of the cell cubic in the area-normalised
@@ -732,7 +838,7 @@ def _envelope(F, case, nodes, pts, bounds):
         rho.append(r)
         rho_abs.append(xmax[d] / hmin[d])
         g *= 1.0 + 2.0 * r * th1 + 8.0 * r * r * (1.0 + r) * th2
-    a_local = 64.0 * EPS * (4.0 * Soff + Sv * g)
+    a_local = 64.0 * EPS * (16.0 * Soff + Sv * g)
     tol = 1e-9 * Sv + a_local
     # the class forms products of samples and inverse node spacings: beyond this magnitude intermediate monomials overflow,
     # below it they become denormal -- genuine limits of double precision, not judged
@@ -1063,6 +1169,11 @@ def _run_case(case, ctx):
     ctx.cls("func:" + F.kind)
     ctx.cls("offset:" + case["offclass"])
     ctx.cls("magnitude:" + case.get("mclass", "unit"))
+    for z in set(case.get("zclass", [])):
+        ctx.cls("zero-on-axis:" + z)
+    if case.get("zclass") and all(z != "outside" for z in case["zclass"]):
+        ctx.cls("origin-in-area")
+    special = set(case.get("special", []))
     ctx.cls("bounds:" + case["bclass"])
     if min(case["nn"]) == 2:
         ctx.cls("two-node-axis")
@@ -1100,6 +1211,8 @@ def _run_case(case, ctx):
                 continue
             a, b = ref["got"][k][0], vs[0]
             ncomp += 1
+            if k in special:
+                ctx.mon("special")
             ctx.check(_bits(a) == _bits(b), "history:%s:order-dependent" % cname,
                       "two evaluation orders of the same point set returned different bits at the same point",
                       monitor="history", point=pts[k], order_a=ref["name"], order_b=r["name"], a=a, b=b,
